@@ -98,7 +98,7 @@ var numberWideness = map[string]int{
 	"float":         2,
 	"long":          1,
 	"integer.int64": 1,
-	"integer":       0,
+	"integer":       1,
 	"integer.int32": 0,
 }
 
